@@ -1,5 +1,6 @@
 import VarmqVerif.Proofs.Fifo
 import VarmqVerif.Proofs.PQ
+import VarmqVerif.Proofs.Disp
 import VarmqVerif.Tie.Facts
 /-!
   C04 — dispatch order: FIFO per queue; lowest priority number first, ties FIFO.
@@ -61,5 +62,32 @@ theorem less_is_model_order : Generated.guardsOf "heapQueue.Less" =
      "ret:pq.items[i].Priority<pq.items[j].Priority"] := Tie.less_guards
 
 example : initCap = 1024 ∧ maxCap = 102400 := by decide
+
+/-! Worker level (model `Disp`: one dispatcher hands jobs out one after the other, pool goroutines start them in any
+    order, a job is dequeued only while fewer than the largest limit are in flight — the latter is Res.busy_le_limit).
+    The hand-out order `deqd` is the order in which the containers above returned the jobs. -/
+
+/-- "with concurrency 1 this is exactly the execution order": as long as the limit never exceeded 1, the sequence of
+    worker-function starts is a subsequence of the hand-out order (the jobs missing from it were cancelled or skipped) -/
+theorem serial_is_handout_order {s : Disp.State} (h : Disp.Reach s) (hl : s.maxLim ≤ 1) : s.entered.Sublist s.deqd :=
+  Disp.serial_is_handout_order h hl
+
+/-- … and when a job starts, every job handed out before it has started or was skipped -/
+theorem serial_order {s s' : Disp.State} {j : Nat} (h : Disp.Reach s) (hl : s.maxLim ≤ 1)
+    (he : Disp.step s (.enter j) = .ok s') : ∀ i ∈ s.deqd.takeWhile (· != j), i ∈ s.entered ∨ i ∈ s.gone :=
+  Disp.serial_order h hl he
+
+/-- "with concurrency n the set of started jobs is a prefix of that order" — up to the jobs that hold one of the other
+    n − 1 slots: when job j starts, and at every moment after it, at most n − 1 of the jobs handed out before j are
+    still waiting to start (n the largest limit so far) -/
+theorem ahead_slack {s s' : Disp.State} {j : Nat} (h : Disp.Reach s) (he : Disp.step s (.enter j) = .ok s') :
+    (Disp.waitingAhead s j).length + 1 ≤ s.maxLim := Disp.ahead_slack h he
+
+theorem ahead_slack_stable {s : Disp.State} (h : Disp.Reach s) {j : Nat} (hj : j ∈ s.entered) :
+    (Disp.waitingAhead s j).length + 1 ≤ s.maxLim := Disp.ahead_slack_stable h hj
+
+/-- started jobs were handed out, each starts at most once -/
+theorem started_were_handed_out {s : Disp.State} (h : Disp.Reach s) : (∀ j ∈ s.entered, j ∈ s.deqd) ∧ s.entered.Nodup :=
+  ⟨Disp.entered_subset_deqd h, Disp.entered_nodup h⟩
 
 end VarmqVerif.Props.C04
